@@ -1,6 +1,7 @@
 package rules
 
 import (
+	"fmt"
 	"strings"
 
 	"xvc/q"
@@ -132,6 +133,23 @@ func c07(c *q.Ctx) {
 		c.Effect(vs, q.Eff{Spec: "State.verifyXuperSign", Arg: 1, Glob: "p2", Req: []q.Cond{{Canon: "(nil == p1.XuperSign)", Sense: false}}, Why: "aggregated-signature transactions use the XuperSign path with the same digest", Rule: "K11"})
 	}
 	xuperSignRules(c)
+	blockVerifyFirstError(c)
+	methodPermArgs(c)
+	// a covered field enters the digest whole: no integer is narrowed on its way into the encoder (the dropped upper
+	// bits could be changed under a valid signature)
+	if f := c.Fn(th + "txDigestHashV2"); f != nil {
+		spec := "encoder.Encode"
+		idx := 1
+		bad, n := q.NarrowedArgs(f, spec, idx)
+		c.Sites += n
+		c.Floor("K4", th+"txDigestHashV2", "fields handed to the digest encoder", n, 20)
+		for _, ci := range bad {
+			c.Fail("K4", th+"txDigestHashV2", "no integer field is narrowed on its way into the digest", c.At(ci), "the encoder receives `"+q.Canon(ci.Common().Args[idx])+"`: a conversion to a narrower integer type drops the upper bits of a signed field")
+		}
+		if len(bad) == 0 {
+			c.OK("K4", th+"txDigestHashV2", "no integer field is narrowed on its way into the digest", "-", fmt.Sprintf("%d encoder call(s) inspected", n))
+		}
+	}
 	// every check of ImmediateVerifyTx / ImmediateVerifyAutoTx sits under `version > root version`: a version outside
 	// [root, beta] - above OR below - is refused first (a negative version would reach `return true` unchecked)
 	for _, name := range []string{"ImmediateVerifyTx", "ImmediateVerifyAutoTx"} {
